@@ -713,3 +713,17 @@ def _npa(ctx, f):
     rets, Nn = return_terms(m, f, inline=True)
     oks = any("solve" in repr(t) for _, _, t in rets)
     ctx.ob("R-SDP", f, "S3 returns the optimum of this problem", oks, "problem.solve() is returned" if oks else "returned value does not come from problem.solve()")
+
+
+def run_npa(ctx):
+    from .npa_common import check_npa
+
+    check_npa(ctx)
+
+
+_run_core = run
+
+
+def run(ctx):  # noqa: F811
+    _run_core(ctx)
+    run_npa(ctx)
